@@ -293,27 +293,35 @@ def liveClause (due : Nat) (why : Why) (raw : String) (a : Live) (t : Nat) : Opt
   | .no => if t < due then some (.goroutineGone t due) else none
   | _ => some (.badLive raw)
 
-/-- The remaining clauses of the stream `sessions` (the property's last sentence): nothing is logged
-and no goroutine is left once keep-alive had to end; while it has not ended the goroutine exists; a
-session that keep-alive reports as closed has its connection closed. -/
+/-- silent_stop (stream `sessions`): nothing is logged once keep-alive had to end. -/
+def loggedClause (warn closes : List Nat) (due : Nat) (why : Why) : Option Clause :=
+  match (warn ++ closes).find? (· > due) with
+  | some w => some (.loggedAfterEnd w due why)
+  | none => none
+
+/-- closes_iff_T_consecutive (stream `sessions`): a session that keep-alive reports as closed has its
+connection closed, at the latest when a blocked transport write is through. -/
+def shutClause (shut wblk : Option Nat) (closes : List Nat) : Option Clause :=
+  match closes with
+  | c :: _ =>
+    match shut with
+    | some sh => if sh ≤ c ∨ sh ≤ wblk.getD 0 then none else some (.shutLate c sh)
+    | none => some (.shutNever c)
+  | [] => none
+
+/-- silent_stop / pings_at_ticks (stream `sessions`): no goroutine is left once keep-alive had to end;
+while it has not ended the goroutine exists. -/
+def livesClause (at1 : Option Nat) (at2 : Nat) (liveOk : Bool) (raw : String) (live1 live2 : Live)
+    (due : Nat) (why : Why) : Option Clause :=
+  if !liveOk then some (.badLive raw)
+  else match at1 with
+    | some t1 => liveClause due why raw live1 t1 <|> liveClause due why raw live2 at2
+    | none => liveClause due why raw live2 at2
+
+/-- The remaining clauses of the stream `sessions` (the property's last sentence). -/
 def sessClause (sc : Scenario) (so : SessObs) (closes : List Nat) (due : Nat) (why : Why) : Option Clause :=
-  let logged : Option Clause :=
-    match (so.warn ++ closes).find? (· > due) with
-    | some w => some (.loggedAfterEnd w due why)
-    | none => none
-  let shutc : Option Clause :=
-    match closes with
-    | c :: _ =>
-      match so.shut with
-      | some sh => if sh ≤ c ∨ sh ≤ so.wblk.getD 0 then none else some (.shutLate c sh)
-      | none => some (.shutNever c)
-    | [] => none
-  let livec : Option Clause :=
-    if !so.liveOk then some (.badLive so.liveRaw)
-    else match sc.at1 with
-      | some t1 => liveClause due why so.liveRaw so.live1 t1 <|> liveClause due why so.liveRaw so.live2 sc.at2
-      | none => liveClause due why so.liveRaw so.live2 sc.at2
-  logged <|> shutc <|> livec
+  loggedClause so.warn closes due why <|> shutClause so.shut so.wblk closes <|>
+    livesClause sc.at1 sc.at2 so.liveOk so.liveRaw so.live1 so.live2 due why
 
 /-- **The C13 monitor of one scenario.** -/
 def monitor (sc : Scenario) (o : Obs) : Option Clause :=
